@@ -122,6 +122,12 @@ def conformsTrace (sc : Scenario) (tr : List Ev) : Bool :=
 
 def conforms (p : Prog) (sc : Scenario) : Bool := conformsTrace sc (runProg sc p.body)
 
+/-- top-level statements that neither defer the exit nor call the handler -/
+def plainStmt : Stmt → Bool
+  | .deferExit => false
+  | .callNext _ _ => false
+  | _ => true
+
 def scenarios : List Scenario :=
   [⟨true, .ok⟩, ⟨true, .err⟩, ⟨true, .panic⟩, ⟨false, .ok⟩, ⟨false, .err⟩, ⟨false, .panic⟩]
 
